@@ -68,3 +68,8 @@ func specBoolRoundTrip(v Bool) bool {
 	}
 	return out == v
 }
+
+// verifGlobals: package-level variables initialised once and never reassigned.
+func verifGlobals() bool {
+	return errVarintTooSmall != nil && errVarintOverflow != nil
+}
